@@ -134,44 +134,6 @@ Definition listed (st : astate) (s : N) : list outpoint :=
 Definition op_pair_le (a b : N * outpoint) : bool :=
   orb (fst a <? fst b) (andb (fst a =? fst b) (op_le (snd a) (snd b))).
 
-(* Commit points of the real index for a case's driving parameters (see harness/hx-satsidx):
-   sched = commit_interval headers_far flags update_height...  With far-ahead headers there are no
-   savepoint commits, so Updater::update_index commits after every commit_interval-th block of an
-   update() call and at the end of the call; the calls index the blocks up to each update height
-   (heights <= 1 are skipped: the genesis block is already in the node) and finally all blocks.
-   Without far-ahead headers savepoint commits interleave; the entry point then uses the
-   commit-every-block schedule (equal outside the known class, C12). *)
-Fixpoint call_flags (ci : N) (k : nat) (unc : N) : list bool :=
-  match k with
-  | O => []
-  | S k' =>
-    let u := unc + 1 in
-    if orb (u =? ci) (Nat.eqb k' 0) then true :: call_flags ci k' 0 else false :: call_flags ci k' u
-  end.
-
-Fixpoint sched_flags (ci : N) (stops : list N) (idx inst len : N) : list bool :=
-  match stops with
-  | [] => []
-  | s :: r =>
-    let s' := N.min s len in
-    if andb (s' <=? inst) (negb (s' =? len)) then sched_flags ci r idx inst len
-    else
-      let inst' := N.max inst s' in
-      call_flags ci (N.to_nat (inst' - idx)) 0 ++ sched_flags ci r inst' inst' len
-  end.
-
-Definition case_flags (inp : list Z) (len : N) : list bool :=
-  match inp with
-  | [] => []
-  | n :: r =>
-    let sc := ns (firstn (N.to_nat (nZ n)) r) in
-    match sc with
-    | ci :: far :: _ :: updates =>
-      if far =? 0 then [] else sched_flags (N.max ci 1) (updates ++ [len]) 0 1 len
-    | _ => []
-    end
-  end.
-
 Definition run_C17 (inp : list Z) : list Z :=
   let c := fst (read_chain inp) in
   match a_run (case_flags inp (N.of_nat (length c))) c with
